@@ -114,6 +114,17 @@ class _Slice:
         self.index, self.count = index, count
         self.kept = 0
         self.passed = self.failed = self.skipped = 0
+        # W3 is an ATTACHED workload that never decides a verdict alone; under the curve / line monitors a single pairing test costs
+        # tens of minutes, so the slice stops starting new tests after a wall-clock budget (what ran is counted in the evidence)
+        self.budget_s = float(os.environ.get("PV_W3_BUDGET_S", "900"))
+        self.t0 = time.time()
+        self.over_budget = 0
+
+    def pytest_runtest_setup(self, item):
+        if time.time() - self.t0 > self.budget_s:
+            self.over_budget += 1
+            import pytest
+            pytest.skip("W3 wall-clock budget of this shard used up")
 
     def pytest_collection_modifyitems(self, session, config, items):
         keep = [it for i, it in enumerate(sorted(items, key=lambda it: it.nodeid)) if i % self.count == self.index]
@@ -162,6 +173,7 @@ def repo_tests(rec, index, count):
     rec.case("W3:repo-tests", None, nontrivial=False)
     rec.event("W3:tests-passed", sl.passed)
     rec.event("W3:tests-failed", sl.failed)
+    rec.event("W3:tests-not-started(budget)", sl.over_budget)
     rec.event("W3:oracle-evaluations-during-repo-tests", rec.evals - evals0)
     rec.notes.setdefault("W3", "the repository's own tests ran in-process under the installed monitors, sliced over the shards; test outcomes themselves do not decide anything here")
     rec.paths["W3:seconds"] += int(time.time() - t0)
